@@ -16,6 +16,12 @@
 (*              until = end of its fade (0: none), out = it is the fade-out left by a removal]      *)
 (*   coil       set of slots (contexts) that hold the coil enabled                                  *)
 (*   out[sh]    what the last action made slot sh do: steps <<k, tExec, tNominal>> and events       *)
+(* Configuration: cfg.dsync = the machine-wide mpf: default_show_sync_ms (units, 0: none); a slot's  *)
+(* sync is -1 (sync_ms not given: the machine default applies), 0 (explicitly none: the show starts *)
+(* at once whatever the default) or its own grid.  same = n: the slot is the SAME play request as   *)
+(* slot n (same show_player entry: key, show, config), arriving again.  quiet: the request names no *)
+(* played / stopped events and blocks no queue, so replace_or_advance_show may keep the instance    *)
+(* that already runs that very config instead of replacing it.                                      *)
 EXTENDS Integers, Sequences, FiniteSets, TLC
 CONSTANTS Configs,      \* set of records [id, sh |-> << slot configs >>]
           MaxTime, MaxOps,
@@ -37,6 +43,14 @@ Ttn(sh, k, sp) == (C(sh).durs[k] * sp[2]) \div sp[1]
 Exact(sh, sp) == \A k \in 1..NSteps(sh) : C(sh).durs[k] > 0 => (C(sh).durs[k] * sp[2]) % sp[1] = 0
 \* next point of the sync grid strictly after t (RunningShow._start_play)
 SyncT(t, s) == ((t \div s) + 1) * s
+\* the sync grid of a play request (ShowController.create_show_config): only a request that does not say falls back to
+\* the machine-wide default; an explicit 0 means "start immediately"
+ESync(sh) == IF C(sh).sync < 0 THEN cfg.dsync ELSE C(sh).sync
+\* the request this slot repeats (itself if it is an original)
+Root(sh) == IF C(sh).same = 0 THEN sh ELSE C(sh).same
+\* only show_player requests put their instance under a key
+Keyed(sh) == C(sh).via = "player"
+SameKey(x, sh) == x # sh /\ Keyed(x) /\ Keyed(sh) /\ C(x).key = C(sh).key
 Inc(n) == IF n >= 2 THEN 2 ELSE n + 1
 Fade(x) == IF x = 2 THEN cfg.fade ELSE 0
 
@@ -106,24 +120,36 @@ Fresh == [ph |-> "none", idx |-> 0, cur |-> 0, loops |-> 0, sp |-> <<1, 1>>, man
           armed |-> FALSE, late |-> 0, startcb |-> 0, repl |-> FALSE, zomb |-> FALSE, base |-> 0, acc |-> 0,
           hp |-> 0, hs |-> 0, hc |-> 0]
 
+\* a manual control request (advance / step_back / resume) runs a step now: the schedule restarts from the present
+RebaseAt(w, sh, t) == [w EXCEPT !.st[sh].armed = FALSE, !.st[sh].late = 0, !.st[sh].nextT = t,
+                                !.st[sh].base = t, !.st[sh].acc = 0]
+
 \* show_player._play -> replace_or_advance_show -> play_with_config -> RunningShow.__init__/_start_play
 PlayF(w, sh, t) ==
     LET c == C(sh)
         N == NSteps(sh)
-        P == {x \in Slots \ {sh} : C(x).key = c.key /\ w.st[x].ph \in {"wait", "run"} /\ ~w.st[x].repl}
+        sy == ESync(sh)
+        \* the instance show_player holds under the key of the request (any phase: waiting for its sync point, or running)
+        P == {x \in Slots : SameKey(x, sh) /\ w.st[x].ph \in {"wait", "run"} /\ ~w.st[x].repl}
         p == IF P = {} THEN 0 ELSE CHOOSE x \in P : TRUE
+        \* the very same request again, and nothing (played / stopped events, a blocked queue) depends on a new instance:
+        \* a show that has EXECUTED its step start-1 or start already is only advanced / left alone.  A show that has not
+        \* started yet (it waits for its sync point: cur = 0) is at no step: it is replaced like any other
+        keep == p # 0 /\ Root(p) = Root(sh) /\ c.quiet /\ ~c.blockq /\ w.st[p].sp = c.sp /\ w.st[p].cur > 0
         idx0 == IF c.start > 0 THEN c.start - 1 ELSE IF c.start < 0 THEN c.start % N ELSE 0
         \* the key now belongs to the new instance
-        wA == [w EXCEPT !.st = [x \in Slots |-> IF x # sh /\ C(x).key = c.key
+        wA == [w EXCEPT !.st = [x \in Slots |-> IF SameKey(x, sh)
                                                 THEN [w.st[x] EXCEPT !.repl = (x = p) \/ @, !.zomb = FALSE] ELSE w.st[x]]]
         \* without sync the replaced show is stopped at once, with sync when the new show starts
-        wB == IF p # 0 /\ c.sync = 0 THEN StopF(wA, p, t) ELSE wA
-        t0 == IF c.sync > 0 THEN SyncT(t, c.sync) ELSE t
-        s1 == [Fresh EXCEPT !.ph = IF c.sync > 0 THEN "wait" ELSE "run", !.idx = idx0, !.loops = c.loops,
-                            !.sp = c.sp, !.manual = c.manual, !.nextT = t0, !.armed = c.sync > 0,
-                            !.startcb = IF c.sync > 0 THEN p ELSE 0, !.base = t0]
+        wB == IF p # 0 /\ sy = 0 THEN StopF(wA, p, t) ELSE wA
+        t0 == IF sy > 0 THEN SyncT(t, sy) ELSE t
+        s1 == [Fresh EXCEPT !.ph = IF sy > 0 THEN "wait" ELSE "run", !.idx = idx0, !.loops = c.loops,
+                            !.sp = c.sp, !.manual = c.manual, !.nextT = t0, !.armed = sy > 0,
+                            !.startcb = IF sy > 0 THEN p ELSE 0, !.base = t0]
         wC == [wB EXCEPT !.st[sh] = s1]
-    IN IF c.sync > 0 THEN wC ELSE StartNowF(wC, sh, t)
+    IN IF keep /\ w.st[p].cur = c.start THEN w
+       ELSE IF keep /\ w.st[p].cur + 1 = c.start THEN RunNext(RebaseAt(w, p, t), p, t, <<>>)
+       ELSE IF sy > 0 THEN wC ELSE StartNowF(wC, sh, t)
 
 \* the loop runs the pending timer of slot sh at time t
 Fire(w, sh, t) ==
@@ -146,8 +172,7 @@ W == [st |-> st, lights |-> lights, coil |-> coil, out |-> [sh \in Slots |-> [st
 Commit(w, a) == st' = w.st /\ lights' = w.lights /\ coil' = w.coil /\ out' = w.out /\ act' = a
 Op(w, a) == nops < MaxOps /\ Commit(w, a) /\ nops' = nops + 1 /\ UNCHANGED <<cfg, now>>
 Live(sh) == st[sh].ph = "run" /\ ~st[sh].repl
-Rebase(w, sh) == [w EXCEPT !.st[sh].armed = FALSE, !.st[sh].late = 0, !.st[sh].nextT = now,
-                           !.st[sh].base = now, !.st[sh].acc = 0]
+Rebase(w, sh) == RebaseAt(w, sh, now)
 
 Play(sh) == st[sh].ph = "none" /\ Op(PlayF(W, sh, now), [op |-> "play", sh |-> sh])
 Stop(sh) == st[sh].ph \in {"wait", "run"} /\ ~st[sh].repl /\ Op(StopF(W, sh, now), [op |-> "stop", sh |-> sh])
@@ -217,7 +242,19 @@ OnSchedule == \A sh \in Slots : (st[sh].ph = "run" /\ st[sh].armed)
                  => st[sh].nextT * st[sh].sp[1] = st[sh].base * st[sh].sp[1] + st[sh].acc * st[sh].sp[2]
 NeverEarly == \A sh \in Slots : \A i \in DOMAIN out[sh].steps : out[sh].steps[i][2] >= out[sh].steps[i][3]
 \* a show waiting for its sync point starts on the sync grid
-SyncOnGrid == \A sh \in Slots : (st[sh].ph = "wait") => (st[sh].nextT % C(sh).sync = 0)
+SyncOnGrid == \A sh \in Slots : (st[sh].ph = "wait") => (ESync(sh) > 0 /\ st[sh].nextT % ESync(sh) = 0)
+\* a request with no sync grid (explicit 0, or none given and no machine default) never waits; one with a grid is never
+\* started by the request itself
+SyncHonoured == [][\A sh \in Slots : (st[sh].ph = "none" /\ st'[sh].ph # "none")
+                       => IF ESync(sh) > 0 THEN st'[sh].ph = "wait" /\ out'[sh].steps = <<>>
+                          ELSE st'[sh].ph # "wait" /\ out'[sh].steps # <<>> /\ out'[sh].steps[1][2] = now]_vars
+\* under one show_player key at most one show is running: the show a synced request replaces plays on alone until the
+\* new one starts, and is stopped at that very moment - however many requests arrived while the new one was waiting
+KeyExclusive == \A x, y \in Slots : (SameKey(x, y) /\ st[x].ph = "run") => st[y].ph # "run"
+ReplacedAtStart == [][\A sh \in Slots : (st[sh].ph = "wait" /\ st'[sh].ph = "run")
+                          => /\ now' >= st[sh].nextT
+                             /\ out'[sh].steps # <<>> /\ out'[sh].steps[1][3] = st[sh].nextT
+                             /\ st[sh].startcb # 0 => st'[st[sh].startcb].ph = "done"]_vars
 \* EventsOnce
 EventsOnce == \A sh \in Slots : /\ st[sh].hp <= 1 /\ st[sh].hs <= 1 /\ st[sh].hc <= 1
                                 /\ (st[sh].ph = "done") <=> (st[sh].hs = 1)
@@ -240,7 +277,7 @@ LoopsAndCompletion == [][act'.op = "adv" => \A sh \in Slots : InOrder(sh)]_vars
 StartStep == [][\A sh \in Slots : (st[sh].hp = 0 /\ st'[sh].hp = 1 /\ out'[sh].steps # <<>>)
                     => LET c == C(sh) IN
                        /\ out'[sh].steps[1][1] = (IF c.start > 0 THEN c.start ELSE IF c.start < 0 THEN NSteps(sh) + c.start + 1 ELSE 1)
-                       /\ out'[sh].steps[1][3] = (IF c.sync > 0 THEN st[sh].nextT ELSE now)]_vars
+                       /\ out'[sh].steps[1][3] = (IF ESync(sh) > 0 THEN st[sh].nextT ELSE now)]_vars
 PausedIsSilent == [][\A sh \in Slots : (act'.op = "adv" /\ ~st[sh].armed) => out'[sh].steps = <<>>]_vars
 \* CleanAfterStop: a stopped or completed show owns nothing, holds no coil, and has released its queue
 CleanAfterStop == \A sh \in Slots : (st[sh].ph = "done")
